@@ -415,6 +415,7 @@ impl Ctx {
             }
         };
         let last_beat = Cell::new(Instant::now());
+        let last_failure: RefCell<Option<Failure>> = RefCell::new(None);
         let result = runner.run(&strategy, |v| {
             if !self.frozen.get() {
                 self.stats.borrow_mut().evaluations += 1;
@@ -435,6 +436,7 @@ impl Ctx {
                         Ok(())
                     } else {
                         self.frozen.set(true);
+                        *last_failure.borrow_mut() = Some(fl.clone());
                         Err(TestCaseError::fail(truncate(&fl.msg, 200)))
                     }
                 }
@@ -443,6 +445,11 @@ impl Ctx {
         if let Err(TestError::Fail(_, v)) = result {
             // Re-run the minimal case once (still frozen) to get its message and rendering.
             if let Err(fl) = run_one(&v) {
+                self.record_failure(&fl, Some(&v));
+            } else if let Some(fl) = last_failure.borrow_mut().take() {
+                // The last failing observation stands (for a property about determinism this is
+                // the expected way to fail); the replay file holds the case, which may pass.
+                let fl = Failure { msg: format!("{} [observed during the search; one re-run of the same case did not show it: the outcome is not a function of the input]", fl.msg), ..fl };
                 self.record_failure(&fl, Some(&v));
             } else {
                 self.record_failure(
